@@ -5,7 +5,7 @@ THOROUGH_BUDGET_S = 600
 RULE = (
     "seeded histories of 1-4 read_plan(gulp,start,nsamps,skipback) iterations on one FilReader over 1-3 "
     "harness-written SIGPROC files (all six depths; splits with 1-sample files and boundaries inside blocks and "
-    "overlaps); consumer kinds plain / poison-after-copy (K1) / in-place channel overwrite (K2) / abandon at block j "
+    "overlaps; 3% of runs (10% thorough) use 600-3000 samples x 64-1024 channels so that blocks span many kB); consumer kinds plain / poison-after-copy (K1) / in-place channel overwrite (K2) / abandon at block j "
     "(K3) / second reader interleaved (K4); allocator kinds A1-A5; fault runs add R1 short readinto, R2 EIO, "
     "R3 readinto->None, R4 last file truncated underneath. Non-trivial = at least one yielded block was compared "
     "with the array model; distinct = distinct event-log digests among those."
@@ -15,7 +15,7 @@ PROBES = [
     "partial-last-block-before-EOF", "start>0", "sub-byte", "skipback-mid-regime", "skipback-low-regime",
     "overlap-only-block", "K1", "K2", "K3-abandon-then-plan", "K4", "A1", "A2", "A3", "A4", "A5",
     "must-reject", "fault-inside-plan:R1", "fault-inside-plan:R2", "fault-inside-plan:R3", "fault-inside-plan:R4",
-    "plan-after-fault-exact", ">=3-blocks", "nsamps=0",
+    "plan-after-fault-exact", ">=3-blocks", "nsamps=0", "big-blocks",
 ]
 COMPONENTS = {
     "real": ["sigpyproc.readers.FilReader.read_plan", "sigpyproc.io.fileio.FileReader.creadinto/seek/eos",
